@@ -42,7 +42,7 @@ Print Assumptions C13_model_pages_are_spec_pages.
 
 (* (I refines S, at the level of the public API) every session - create a series in an empty directory, then ANY sequence of
    appends (accepted or refused), full and bounded reads, first-n reads, line counts and accessor calls, with any arguments
-   the types admit - run on the model of the library is ACCEPTED BY THE JUDGE, the extracted specification that decides
+   the types allow - run on the model of the library is ACCEPTED BY THE JUDGE, the extracted specification that decides
    whether an observed behaviour satisfies the properties: every answer of the model is in the set the judge allows, after
    every step the files of the model are byte for byte the files the judge expects, and the judge stays determined. On this
    fragment a judge failure on the implementation is therefore a deviation of the code from its model. *)
@@ -64,7 +64,7 @@ Print Assumptions C13_first_n_with_caches.
 (* (source = model, re-checked against the current text of src/seek.rs on every run) the two functions that turn the bounds
    of a range into the first and the last timestamp looked for, as tools/translate_seek.py translated them this time
    (gen/SeekGen.v), are the model's - on which the theorems above rest - and compute: the smallest timestamp the start bound
-   admits raised to the first line, the largest the end bound admits lowered to the last line, the edges of u64 refused for
+   allows raised to the first line, the largest the end bound allows lowered to the last line, the edges of u64 refused for
    excluded bounds, an error when nothing is left *)
 Theorem C13_source_start_bound_is_model : forall d b first last, data_range d = Ok (Some (first, last)) ->
   checked_start_time d b = BSgen.SeekGen.gen_checked_start first last b.
